@@ -374,11 +374,16 @@ impl EigenTrustEngine {
         }
 
         // Apply multi-factor trust adjustments
+        // A node nobody has reported statistics for gets the neutral factor of
+        // empty statistics, not an implicit perfect 1.0: otherwise the first
+        // success ever recorded for a peer would lower its score.
+        let neutral_factor = self.compute_multi_factor_adjustment(&NodeStatistics::default());
         for (node, trust) in trust_vector.iter_mut() {
-            if let Some(stats) = node_stats.get(node) {
-                let factor = self.compute_multi_factor_adjustment(stats);
-                *trust *= factor;
-            }
+            let factor = node_stats
+                .get(node)
+                .map(|stats| self.compute_multi_factor_adjustment(stats))
+                .unwrap_or(neutral_factor);
+            *trust *= factor;
         }
 
         // Apply time decay
